@@ -12,7 +12,15 @@ Streams (all from ctx.rng):
             (a fixed share) MLEProcessTomography with a noiseless callback;
   * "data"  synthetic callback data (valid counts / malformed) for LI and GateFidelity;
   * "ref"   choi_from_unitary / process_fidelity on exact unitaries;
-  * "init"  constructor validation.
+  * "init"  constructor validation;
+  * "hist"  HISTORIES on long-lived objects of all three classes (a directed corpus that always runs first,
+            then random ones from a stream of their own): process() - the base circuit is extended in
+            place / a Parameter it depends on is set / `experiment` or `experiment_args` are re-assigned
+            (a device with depolarising noise) - process() again, GateFidelity with the current V, the V
+            of an earlier call, the previous or a random target, several targets in a row; objects sharing
+            one base circuit or holding a copy.  After every call: the clauses for the CURRENT circuit and
+            device, equality with a fresh object, currency of the circuits / inputs / arguments handed to
+            the callback, the model on the current data and on the cumulative program.
 Oracles are evaluated on the implementation alone: the reference is choi_from_unitary(V) with V the
 dual-rail transfer matrix of the base circuit obtained from the implementation's Simulator.
 """
@@ -20,6 +28,7 @@ dual-rail transfer matrix of the base circuit obtained from the implementation's
 from __future__ import annotations
 
 import json
+import random
 import warnings
 from fractions import Fraction
 
@@ -57,6 +66,12 @@ ASSUMPTIONS = [
     "model scalars are exact elements of Q(i, sqrt2); the code sees the corresponding floats",
     "n = 1, 2 qubits (the property's quantifier); theorems about LI / gate fidelity are for every n",
     "order of the required settings inside this process observed once (see C15) and fed to the model",
+    "histories: a tomography object measures the base circuit it was given AS IT IS at the time of process() "
+    "(in-place extensions and Parameter changes made after construction count), with the experiment and "
+    "experiment_args assigned at that time; it may re-measure or reuse data, the result must be that of the "
+    "current process.  For a device with depolarising noise lam the clauses are extended by linearity: LI returns "
+    "(1-lam) choi_from_unitary(V) + lam I/d, gate fidelity (1-lam) F(U,V) + lam/d; MLE is then only compared with "
+    "a fresh object (and checked for positivity / trace preservation)",
 ]
 
 TOL = 1e-8
@@ -415,11 +430,657 @@ def run_init(ctx: Ctx, case: dict) -> list[str]:
     return [] if impl == mm else [f"corr: constructor outcome impl={impl} model={mm} ({case})"]
 
 
+# --------------------------------------------------------------------------- histories on long-lived objects
+#
+# One to three tomography objects (LIProcessTomography / MLEProcessTomography / GateFidelity, sharing ONE
+# base circuit or holding a copy of their own) live through a sequence of steps: process() - the base
+# circuit is extended in place (single gates, sub-circuits, grouped sub-circuits, heralded gates that add
+# ancilla modes), a Parameter the base circuit depends on is set, `experiment` or `experiment_args` are
+# re-assigned (the callback models a device with depolarising noise lam, chosen by the callback or by the
+# extra argument: every outcome table becomes (1-lam) p + lam total/d, the channel (1-lam) V.V^dag + lam I/d)
+# - process() again (GateFidelity: with the current V, the V of an earlier call, the previous target or a
+# random target, possibly several targets in a row).  After EVERY process() call
+#   * the property's clauses are evaluated for the base circuit AS IT IS NOW (lam = 0: exactly the clauses
+#     of the "proc" stream; lam > 0: the same clauses extended by linearity of LI / the gate-fidelity sum),
+#   * the result is compared with a FRESH object of the same class built on the current base circuit and
+#     the current device, and - when the callback ran - the circuits / inputs / extra arguments it was
+#     handed with those the fresh object hands over (re-measuring is legitimate, stale data is not),
+#   * the model evaluates LI / gate fidelity on the data of the current configuration (li_data / gf_data)
+#     and, for one-qubit histories the model can follow, on the cumulative qubit-level program (li_born /
+#     gf_born).
+
+PHASE_Q2 = ["1,0,0,0", "0,0,1/2,1/2", "0,1,0,0", "0,0,-1/2,1/2", "-1,0,0,0", "0,0,-1/2,-1/2", "0,-1,0,0",
+            "0,0,1/2,-1/2"]  # exp(i k pi/4) in Q(i, sqrt2)
+NOISES = ["0", "1/4", "1/2", "1"]
+CLS = {"li": LIProcessTomography, "mle": MLEProcessTomography, "gf": GateFidelity}
+N_INPUTS = {"li": 4, "gf": 4, "mle": 6}
+FRESH_TOL = 1e-9
+_HIST_BUDGET: dict = {"n2_model": None}  # None = unlimited (replays, re-runs of a reported case)
+
+
+class _Device:
+    """callbacks that are bound methods"""
+
+    def __init__(self, f):
+        self.f = f
+
+    def run(self, circuits, inputs, *extra):
+        return self.f(circuits, inputs, *extra)
+
+
+def param_value(v: dict) -> float:
+    return v["k"] * np.pi / 4 if v["kind"] == "phase" else float(v["v"])
+
+
+def hist_apply_gate(c, g: list, pobj: dict) -> None:
+    if g[0] == "PPS":  # phase shifter with a live Parameter on one rail of qubit g[1]
+        c.ps(2 * g[1] + g[2], pobj[g[3]])
+    elif g[0] == "PBS":  # beam splitter across the rails of qubit g[1], reflectivity a live Parameter
+        c.bs(2 * g[1], 2 * g[1] + 1, reflectivity=pobj[g[2]])
+    else:
+        tm.extend_base(c, [g])
+
+
+def hist_apply(base, n: int, gates: list, pobj: dict, how: str) -> None:
+    if how == "each":
+        for g in gates:
+            hist_apply_gate(base, g, pobj)
+        return
+    sub = lw.Circuit(2 * n)
+    for g in gates:
+        hist_apply_gate(sub, g, pobj)
+    base.add(sub, 0, group=(how == "group"))
+
+
+def hist_model_prog(prog: list, ptab: dict):
+    """the cumulative program with the current parameter values, or None when the model cannot follow"""
+    out = []
+    for g in prog:
+        if g[0] in ("MODEU", "PRIM", "PBS"):
+            return None
+        if g[0] == "PPS":
+            if ptab[g[3]]["kind"] != "phase":
+                return None
+            ph = PHASE_Q2[ptab[g[3]]["k"] % 8]
+            one, zero = "1,0,0,0", "0,0,0,0"
+            out.append(["U", g[1], [[ph, zero], [zero, one]] if g[2] == 0 else [[one, zero], [zero, ph]]])
+        else:
+            out.append(g)
+    return out
+
+
+def new_rec() -> dict:
+    return {"calls": 0, "by": None, "extra": None, "circuits": [], "inputs": [], "returned": []}
+
+
+def reset_rec(rec: dict) -> None:
+    rec.update(calls=0, by=None, extra=None)
+    rec["circuits"] = []
+    rec["inputs"] = []
+    rec["returned"] = []
+
+
+def make_hist_experiment(cfg: dict, rec: dict, n: int, cache: dict):
+    """device callback `experiment(circuits, inputs[, noise])`: exact outcome frequencies of every
+    requested circuit (implementation's Simulator) followed by depolarising noise; the extra argument
+    (handed over through `experiment_args`) overrides the device's own noise level.  Everything it is
+    given / returns is recorded in rec."""
+    d = 2**n
+
+    def experiment(circuits, inputs, *extra):
+        rec["calls"] += 1
+        rec["by"] = cfg["id"]
+        rec["extra"] = list(extra)
+        lam = float(Fraction(extra[0] if extra else cfg["noise"]))
+        rec["circuits"].extend(circuits)
+        rec["inputs"].extend(inputs)
+        out = []
+        for c, s in zip(circuits, inputs):
+            her = c.heralds
+            key = (tuple(s), tuple(sorted(her["input"].items())), tuple(sorted(her["output"].items())),
+                   np.array(c.U_full).tobytes())
+            fr = cache.get(key)
+            if fr is None:
+                fr = tm.exact_frequencies(c, s, n)
+                cache[key] = fr
+            tot = sum(fr.values())
+            items = [(k, v if lam == 0 else (1 - lam) * v + lam * tot / d) for k, v in fr.items()]
+            rec["returned"].append(items)
+            out.append({lw.State(list(k)): v for k, v in items})
+        return out
+
+    if cfg.get("kind") == "method":
+        return _Device(experiment).run
+    if cfg.get("kind") == "lambda":
+        return lambda circuits, inputs, *extra: experiment(circuits, inputs, *extra)
+    return experiment
+
+
+def float_target(t: np.ndarray) -> list:
+    """a numeric target as the exact rationals its floats denote (for the model's gf_data)"""
+    return [[tm.float_exact(x.real) + "," + tm.float_exact(x.imag) for x in row] for row in t]
+
+
+def same_up_to_phase(a: np.ndarray, b: np.ndarray) -> bool:
+    return a.shape == b.shape and abs(abs(np.trace(a.conj().T @ b)) - a.shape[0]) <= 1e-9
+
+
+def check_hist_process(ctx: Ctx, n: int, o: dict, st: dict, ptab: dict, cache: dict, info: dict):
+    """ONE process() call on the long-lived object `o` against the clauses for its base circuit and its
+    device AS THEY ARE NOW, against a fresh object, against the model.  Returns the problems (None when
+    the current circuit does not implement a unitary)."""
+    d = 2**n
+    cls = o["cls"]
+    base = o["b"]["circ"]
+    probs: list[str] = []
+    before = cg.observe(base)
+    if base.input_modes != 2 * n:
+        raise AssertionError("generated base circuit has the wrong number of input modes")
+    u = normalise_unitary(transfer_matrix(base, n))
+    if u is None:
+        ctx.count("hist:not-unitary (call skipped)")
+        return None
+    ref = np.array(choi_from_unitary(u))
+    lam_s = o["args"][0] if o["args"] else o["cfg"]["noise"]
+    lam = float(Fraction(lam_s))
+    want_extra = list(o["args"]) if o["args"] else []
+    # ---- the target of a gate-fidelity call
+    target = None
+    if cls == "gf":
+        kind = st.get("target", "V")
+        if kind == "prevV" and o["lastV"] is None or kind == "firstV" and o["firstV"] is None:
+            kind = "V"
+        if kind == "prev" and o["last_target"] is None:
+            kind = "mat"
+        target = {"V": u, "prevV": o["lastV"], "firstV": o["firstV"], "prev": o["last_target"],
+                  "mat": tm.q2mat(st["mat"])}[kind]
+        ctx.count(f"hist:gf-target={kind}")
+        if kind in ("prevV", "firstV") and not same_up_to_phase(target, u):
+            ctx.count("hist:gf-target-is-the-unitary-of-an-earlier-call (V changed since)")
+        if o["last_target"] is not None and not o["pending"] and not np.array_equal(o["last_target"], target):
+            ctx.count("hist:gf-two-different-targets-in-a-row")
+    # ---- the call
+    rec = o["rec"]
+    reset_rec(rec)
+    tomo = o["tomo"]
+    try:
+        got = tomo.process(target) if cls == "gf" else np.array(tomo.process())
+    except Exception as e:  # noqa: BLE001
+        return [f"oracle: {CLS[cls].__name__}.process() raised {exc_class(e)} on noiseless data: {e}"]
+    info["processes"] += 1
+    n_exp = (N_INPUTS[cls] ** n) * (3**n)
+    if rec["calls"] == 0:
+        ctx.count("hist:callback-not-called (data reused)")
+    else:
+        if rec["calls"] != 1 or len(rec["circuits"]) != n_exp or len(rec["inputs"]) != n_exp:
+            probs.append(f"oracle: process() called the experiment {rec['calls']} times with {len(rec['circuits'])} "
+                         f"circuits / {len(rec['inputs'])} inputs, expected one call with {n_exp}")
+        if rec["by"] != o["cfg"]["id"]:
+            probs.append("oracle: process() did not call the experiment currently assigned to the object")
+        if rec["extra"] != want_extra:
+            probs.append(f"oracle: the callback was handed the extra arguments {rec['extra']}, the object's "
+                         f"current experiment_args say {want_extra}")
+    # ---- the property's clauses for the current V (and the current device)
+    eye = np.eye(d * d) / d
+    if cls in ("li", "mle"):
+        choi = got
+        try:
+            if not np.array_equal(np.array(tomo.choi), choi):
+                probs.append("oracle: .choi differs from the matrix process() returned")
+            fid = tomo.fidelity(ref)
+        except Exception as e:  # noqa: BLE001
+            probs.append(f"oracle: {CLS[cls].__name__} .choi / fidelity raised {exc_class(e)}")
+            fid = None
+    if cls == "li":
+        want = ref if lam == 0 else (1 - lam) * ref + lam * eye
+        if choi.shape != ref.shape or not np.all(np.abs(choi - want) <= TOL):
+            probs.append("oracle: LI choi differs from choi_from_unitary(V) of the current base circuit"
+                         + ("" if lam == 0 else f" mixed with the depolarising channel (noise {lam_s})")
+                         + f" (max {np.abs(choi - want).max():.3f})")
+        if lam == 0 and fid is not None and abs(fid - 1) > FID_TOL:
+            probs.append(f"oracle: LI fidelity against choi_from_unitary(V) of the current base circuit is {fid:.6f}")
+    elif cls == "mle":
+        if lam == 0 and fid is not None and fid < 0.99:
+            probs.append(f"oracle: MLE fidelity against choi_from_unitary(V) of the current base circuit is {fid:.4f} < 0.99")
+        herm = (choi + choi.conj().T) / 2
+        if np.abs(choi - herm).max() > 1e-6 or np.linalg.eigvalsh(herm).min() < -1e-6:
+            probs.append("oracle: MLE choi is not positive semi-definite")
+        pt = np.einsum(choi.reshape(d, d, d, d), [0, 1, 2, 1])
+        if np.abs(pt - np.eye(d)).max() > 1e-2:
+            probs.append(f"oracle: MLE choi is not trace preserving (partial trace off by {np.abs(pt - np.eye(d)).max():.3f})")
+    else:
+        f_v = (abs(np.trace(target.conj().T @ u)) ** 2 + d) / (d * (d + 1))
+        want = f_v if lam == 0 else (1 - lam) * f_v + lam / d
+        if abs(got - want) > TOL:
+            probs.append(f"oracle: gate fidelity {got:.9f} differs from (|tr(U^dag V)|^2+d)/(d(d+1)) for the V of the "
+                         f"current base circuit" + ("" if lam == 0 else f" and depolarising noise {lam_s}")
+                         + f" = {want:.9f}")
+        try:
+            if tomo.fidelity != got:
+                probs.append("oracle: .fidelity differs from the value process() returned")
+        except Exception as e:  # noqa: BLE001
+            probs.append(f"oracle: .fidelity raised {exc_class(e)}")
+    # ---- a fresh object of the same class on the current base circuit and device
+    frec = new_rec()
+    fresh = CLS[cls](n, base, make_hist_experiment({"id": -1, "noise": lam_s, "kind": "function"}, frec, n, cache))
+    try:
+        fgot = fresh.process(target) if cls == "gf" else np.array(fresh.process())
+    except Exception as e:  # noqa: BLE001
+        probs.append(f"oracle: process() of a fresh {CLS[cls].__name__} on the same base circuit raised {exc_class(e)}")
+        fgot = None
+    if fgot is not None:
+        ctx.count("hist:compared-with-fresh-object")
+        if cls == "gf":
+            if abs(got - fgot) > FRESH_TOL:
+                probs.append(f"oracle: gate fidelity {got:.9f} differs from the {fgot:.9f} a fresh GateFidelity on the "
+                             f"same base circuit, experiment and target returns")
+        elif got.shape != fgot.shape or not np.all(np.abs(got - fgot) <= (FRESH_TOL if cls == "li" else 1e-6)):
+            probs.append(f"oracle: choi differs from the choi of a fresh {CLS[cls].__name__} on the same base circuit "
+                         f"and experiment (max {np.abs(got - fgot).max():.3f})")
+        if rec["calls"] and len(rec["circuits"]) == len(frec["circuits"]) == len(rec["inputs"]):
+            for k, (a, b) in enumerate(zip(rec["circuits"], frec["circuits"])):
+                oa, ob = cg.observe(a), cg.observe(b)
+                if (oa["n"], oa["input_modes"], oa["in_heralds"], oa["out_heralds"]) != \
+                        (ob["n"], ob["input_modes"], ob["in_heralds"], ob["out_heralds"]) \
+                        or "U_full" not in oa or "U_full" not in ob \
+                        or not np.all(np.abs(oa["U_full"] - ob["U_full"]) <= 1e-12):
+                    probs.append(f"oracle: requested circuit #{k} differs from the circuit a fresh "
+                                 f"{CLS[cls].__name__} on the same base circuit requests (stale circuit?)")
+                    break
+                if list(rec["inputs"][k]) != list(frec["inputs"][k]):
+                    probs.append(f"oracle: input state #{k} differs from the one a fresh object hands over")
+                    break
+    # ---- the model on the data of the current configuration / on the cumulative program
+    order = c15.observe_order(ctx, n)
+    budget_ok = True
+    if n == 2 and _HIST_BUDGET["n2_model"] is not None:
+        budget_ok = _HIST_BUDGET["n2_model"] > 0
+    if cls == "mle":
+        ctx.count("hist:mle:oracle-only")
+    elif fgot is not None and len(frec["returned"]) == n_exp and budget_ok:
+        if n == 2 and _HIST_BUDGET["n2_model"] is not None:
+            _HIST_BUDGET["n2_model"] -= 1
+        mres = [[[list(k), tm.float_exact(val)] for k, val in items] for items in frec["returned"]]
+        if cls == "li":
+            m = ctx.model.call({"op": "ptomo", "kind": "li_data", "n": n, "order": order, "results": mres})
+            if "error" in m:
+                probs.append(f"corr: model LI rejects the data of the current configuration: {m['error']}")
+            elif not np.all(np.abs(got - tm.q2mat(m["choi"])) <= TOL):
+                probs.append("corr: LI choi differs from the model's LI on the data of the current configuration")
+        else:
+            m = ctx.model.call({"op": "ptomo", "kind": "gf_data", "n": n, "order": order, "results": mres,
+                                "target": float_target(target)})
+            if "error" in m:
+                probs.append(f"corr: model gate fidelity rejects the data of the current configuration: {m['error']}")
+            elif abs(got - tm.q2c(m["fidelity"]).real) > TOL:
+                probs.append(f"corr: gate fidelity {got:.9f} differs from the model on the data of the current "
+                             f"configuration {tm.q2c(m['fidelity']).real:.9f}")
+        ctx.count(f"hist:model-on-data:{cls}")
+    elif cls != "mle":
+        ctx.count("hist:n=2 model budget used up:oracle-only")
+    mprog = hist_model_prog(o["b"]["cum"], ptab)
+    if mprog is None:
+        ctx.count("hist:program-not-modelable:oracle-only")
+    elif n == 1 and lam == 0 and cls == "li":
+        m = ctx.model.call({"op": "ptomo", "kind": "li_born", "n": n, "prog": mprog, "order": order,
+                            "check_system": True})
+        if "error" in m:
+            probs.append(f"corr: model LI fails on the Born tables of the cumulative program: {m['error']}")
+        else:
+            if not (m["choi_is_ref"] and m["solves_system"]):
+                probs.append("corr: model LI result is not the reference Choi matrix / does not solve the system")
+            if not np.all(np.abs(got - tm.q2mat(m["choi"])) <= TOL):
+                probs.append("corr: LI choi differs from the model on the cumulative program of the history")
+        ctx.count("hist:model-on-cumulative-program:li")
+    elif n == 1 and lam == 0 and cls == "gf" and st.get("target") == "mat":
+        m = ctx.model.call({"op": "ptomo", "kind": "gf_born", "n": n, "prog": mprog, "order": order,
+                            "target": st["mat"]})
+        if "error" in m:
+            probs.append(f"corr: model gate fidelity fails on the cumulative program: {m['error']}")
+        else:
+            if not m["matches_formula"]:
+                probs.append("corr: model gate fidelity differs from the closed formula (theorem contradicted?)")
+            if abs(got - tm.q2c(m["fidelity"]).real) > TOL:
+                probs.append(f"corr: gate fidelity {got:.9f} differs from the model on the cumulative program "
+                             f"{tm.q2c(m['fidelity']).real:.9f}")
+        ctx.count("hist:model-on-cumulative-program:gf")
+    # ---- bookkeeping
+    after = cg.observe(base)
+    if (before["n"], before["in_heralds"]) != (after["n"], after["in_heralds"]) or \
+            not np.array_equal(before["U_full"], after["U_full"]):
+        probs.append("oracle: process() modified the base circuit")
+    if o["lastV"] is not None:
+        for kind in o["pending"]:
+            ctx.count(f"hist:process-after-{kind}")
+        if not o["pending"]:
+            ctx.count("hist:process-repeated-unchanged")
+        if not same_up_to_phase(o["lastV"], u):
+            info["v_changed"] += 1
+        if o["last_lam"] != lam:
+            info["noise_changed"] += 1
+        if o["last_modes"] != base.n_modes:
+            info["modes_changed"] += 1
+    if lam > 0:
+        ctx.count("hist:process-with-noisy-device")
+    if o["firstV"] is None:
+        o["firstV"] = u
+    o["lastV"], o["last_lam"], o["last_modes"] = u, lam, base.n_modes
+    if target is not None:
+        o["last_target"] = target
+    return probs
+
+
+def run_hist(ctx: Ctx, case: dict, want_info: bool = False):
+    n = case["n"]
+    ptab = {pid: dict(v) for pid, v in case["params"].items()}
+    pobj = {pid: lw.Parameter(param_value(v)) for pid, v in ptab.items()}
+    main = {"circ": lw.Circuit(2 * n), "cum": []}
+    objs: dict = {}
+    cache: dict = {}
+    probs: list[str] = []
+    info = {"processes": 0, "v_changed": 0, "noise_changed": 0, "modes_changed": 0, "ops": set(), "cls": set()}
+    order = c15.observe_order(ctx, n)
+    if None in order or sorted(order) != sorted(tm.all_settings(n)):
+        p = ["oracle: requested measurement circuits cannot be identified (see C15)"]
+        return (p, info) if want_info else p
+    for i, st in enumerate(case["steps"]):
+        op = st["op"]
+        if op == "new":
+            b = main if not st.get("own") else {"circ": main["circ"].copy(), "cum": list(main["cum"])}
+            rec = new_rec()
+            cfg = dict(st["exp"])
+            args = st.get("args")
+            tomo = CLS[st["cls"]](n, b["circ"], make_hist_experiment(cfg, rec, n, cache),
+                                  None if args is None else list(args))
+            objs[st["obj"]] = {"cls": st["cls"], "tomo": tomo, "rec": rec, "cfg": cfg, "args": args, "b": b,
+                               "own": bool(st.get("own")), "calls": 0, "pending": set(), "lastV": None,
+                               "firstV": None, "last_lam": None, "last_modes": None, "last_target": None}
+            info["cls"].add(st["cls"])
+            continue
+        if op == "process":
+            o = objs[st["obj"]]  # KeyError: a history that is not well formed (shrinking)
+            p = check_hist_process(ctx, n, o, st, ptab, cache, info)
+            o["calls"] += 1
+            where = f" [history step {i}: process() call #{o['calls']} on this {CLS[o['cls']].__name__}" + \
+                    (f", after {'+'.join(sorted(o['pending']))}" if o["pending"] else "") + "]"
+            if p is not None:
+                probs += [x + where for x in p]
+                o["pending"] = set()
+            continue
+        info["ops"].add(op)
+        tag = op
+        touched = None  # objects whose configuration the step changes (None: by the base circuit they hold)
+        if op == "extend":
+            b = main if st.get("on", "main") == "main" else objs[st["on"]]["b"]
+            before_modes = b["circ"].n_modes
+            hist_apply(b["circ"], n, st["gates"], pobj, st["how"])
+            b["cum"] += st["gates"]
+            tag = "extend-" + st["how"] + ("-adding-heralds" if b["circ"].n_modes != before_modes else "")
+            touched = [k for k, o in objs.items() if o["b"] is b]
+        elif op == "setparam":
+            ptab[st["pid"]] = {"kind": "phase", "k": st["k"]} if "k" in st else {"kind": "refl", "v": st["v"]}
+            pobj[st["pid"]].set(param_value(ptab[st["pid"]]))
+            touched = list(objs)
+        elif op == "setexp":
+            o = objs[st["obj"]]
+            o["cfg"] = dict(st["exp"])
+            o["tomo"].experiment = make_hist_experiment(o["cfg"], o["rec"], n, cache)
+            touched = [st["obj"]]
+        elif op == "setargs":
+            o = objs[st["obj"]]
+            o["args"] = st["args"]
+            o["tomo"].experiment_args = None if st["args"] is None else list(st["args"])
+            touched = [st["obj"]]
+        else:
+            raise AssertionError(f"unknown history step {op}")
+        for k in touched:
+            objs[k]["pending"].add(tag)
+    return (probs, info) if want_info else probs
+
+
+def rand_hist_exp(rng, ids: list, noise: str | None = None) -> dict:
+    ids[0] += 1
+    if noise is None:
+        noise = rng.choices(NOISES, weights=[60, 15, 15, 10])[0]
+    return {"id": ids[0], "noise": noise, "kind": rng.choice(["function", "function", "method", "lambda"])}
+
+
+def rand_process_steps(rng, n: int, obj: int, cls: str, prog: list) -> list:
+    if cls != "gf":
+        return [{"op": "process", "obj": obj}]
+    out = []
+    for _ in range(rng.choices([1, 2, 3], weights=[55, 35, 10])[0]):
+        kind = rng.choices(["V", "prevV", "firstV", "prev", "mat"], weights=[30, 15, 10, 10, 35])[0]
+        tj, _ = rand_target(rng, n, prog)
+        out.append({"op": "process", "obj": obj, "target": kind, "mat": tj})
+    return out
+
+
+def gen_hist_case(ctx: Ctx, rng) -> dict:
+    cls0 = rng.choices(["gf", "li", "mle"], weights=[45, 35, 20])[0]
+    n = 1 if cls0 == "mle" else rng.choices([1, 2], weights=[70, 30])[0]
+    # heralded two-qubit gates (ancilla modes appear between two calls) are costly: a small share
+    prog = tm.rand_gate_program(rng, n, max_len=2 + 2 * n, max_her=1 if rng.random() < 0.1 else 0)
+    if len(prog) < 2:
+        prog = [["H", 0], *prog, [rng.choice(["S", "T", "SX", "Y"]), rng.randrange(n)]]
+    params: dict = {}
+    for _ in range(rng.choice([0, 0, 1, 1, 2])):
+        pid = str(len(params))
+        q = rng.randrange(n)
+        if rng.random() < 0.75:
+            params[pid] = {"kind": "phase", "k": rng.randrange(8)}
+            gate = ["PPS", q, rng.randint(0, 1), pid]
+        else:
+            params[pid] = {"kind": "refl", "v": rng.choice([0.0, 0.5, 1.0, round(rng.random(), 3)])}
+            gate = ["PBS", q, pid]
+        prog.insert(rng.randint(0, len(prog)), gate)
+    rounds = rng.choice([2, 2, 3]) if cls0 == "mle" else rng.choice([2, 3, 3, 4])
+    cuts = sorted(rng.randint(0, len(prog)) for _ in range(rounds - 1))
+    if cuts[0] == len(prog):
+        cuts[0] = rng.randint(0, len(prog) - 1)  # something is left to add after the first process()
+    chunks = [prog[a:b] for a, b in zip([0, *cuts], [*cuts, len(prog)])]
+    ids = [0]
+    n_obj = rng.choice([1, 1, 1, 2])
+    news = []
+    for k in range(n_obj):
+        cls = cls0 if k == 0 else rng.choice(["gf", "li"] if n == 2 else ["gf", "li", "gf", "li", "mle"])
+        args = None
+        if rng.random() < 0.3:
+            args = [] if rng.random() < 0.3 else [rng.choice(NOISES)]
+        news.append({"op": "new", "obj": k, "cls": cls, "exp": rand_hist_exp(rng, ids), "args": args,
+                     "own": k > 0 and rng.random() < 0.4})
+    state = [dict(x) for x in news]  # what the generator believes about each object
+    early = rng.random() < 0.4  # construct -> mutate -> use   /   build the circuit -> construct -> use
+    steps: list = list(news) if early else []
+    for r, chunk in enumerate(chunks):
+        if chunk:
+            own = [k for k, x in enumerate(state) if x["own"]]
+            on = rng.choice(own) if (own and r > 0 and rng.random() < 0.25) else "main"
+            steps.append({"op": "extend", "gates": chunk, "how": rng.choice(["each", "each", "sub", "group"]),
+                          "on": on})
+        if r == 0 and not early:
+            steps += news
+        if r > 0:
+            if params and rng.random() < 0.6:
+                pid = rng.choice(list(params))
+                if params[pid]["kind"] == "phase":
+                    steps.append({"op": "setparam", "pid": pid, "k": (params[pid]["k"] + rng.randint(1, 7)) % 8})
+                else:
+                    steps.append({"op": "setparam", "pid": pid,
+                                  "v": rng.choice([0.0, 0.5, 1.0, round(rng.random(), 3)])})
+            k = rng.randrange(n_obj)
+            x = rng.random()
+            if x < 0.25:
+                cur = state[k]["exp"]["noise"]
+                noise = rng.choice([v for v in NOISES if v != cur]) if rng.random() < 0.7 else cur
+                cfg = rand_hist_exp(rng, ids, noise)
+                steps.append({"op": "setexp", "obj": k, "exp": cfg})
+                state[k]["exp"] = cfg
+            elif x < 0.5:
+                cur = state[k]["args"]
+                args = rng.choice([None, [], *[[v] for v in NOISES if [v] != cur]])
+                steps.append({"op": "setargs", "obj": k, "args": args})
+                state[k]["args"] = args
+        who = [rng.randrange(n_obj)] if rng.random() < 0.6 else list(range(n_obj))
+        if rng.random() < 0.15:
+            who = [*who, who[0]]  # repeated call without any change
+        for k in who:
+            steps += rand_process_steps(rng, n, k, state[k]["cls"], prog)
+    return {"stream": "hist", "n": n, "params": params, "steps": steps}
+
+
+def _exp(i: int, noise: str = "0", kind: str = "function") -> dict:
+    return {"id": i, "noise": noise, "kind": kind}
+
+
+_H = [["0,0,1/2,0", "0,0,1/2,0"], ["0,0,1/2,0", "0,0,-1/2,0"]]  # Hadamard in Q(i, sqrt2)
+_SH = [["0,0,1/2,0", "0,0,1/2,0"], ["0,0,0,1/2", "0,0,0,-1/2"]]  # S.H
+_O, _I = "0,0", "1,0"
+_X = [[_O, _I], [_I, _O]]
+_CNOT = [[_I, _O, _O, _O], [_O, _I, _O, _O], [_O, _O, _O, _I], [_O, _O, _I, _O]]
+
+HIST_CORPUS = [
+    # the circuit grows between two calls of one GateFidelity; targets: current V, the V of the first
+    # call (stale data would report one), a fixed target, twice in a row
+    {"stream": "hist", "n": 1, "params": {}, "steps": [
+        {"op": "extend", "gates": [["H", 0]], "how": "each"},
+        {"op": "new", "obj": 0, "cls": "gf", "exp": _exp(1), "args": None},
+        {"op": "process", "obj": 0, "target": "V", "mat": _H},
+        {"op": "extend", "gates": [["S", 0]], "how": "each"},
+        {"op": "process", "obj": 0, "target": "V", "mat": _H},
+        {"op": "process", "obj": 0, "target": "firstV", "mat": _H},
+        {"op": "process", "obj": 0, "target": "mat", "mat": _H},
+        {"op": "process", "obj": 0, "target": "mat", "mat": _SH}]},
+    # a Parameter the base circuit depends on is swept: P(k pi/4).H
+    {"stream": "hist", "n": 1, "params": {"0": {"kind": "phase", "k": 0}}, "steps": [
+        {"op": "extend", "gates": [["H", 0], ["PPS", 0, 1, "0"]], "how": "each"},
+        {"op": "new", "obj": 0, "cls": "gf", "exp": _exp(1, kind="method"), "args": []},
+        {"op": "process", "obj": 0, "target": "V", "mat": _H},
+        {"op": "process", "obj": 0, "target": "mat", "mat": _H},
+        {"op": "setparam", "pid": "0", "k": 2},
+        {"op": "process", "obj": 0, "target": "V", "mat": _H},
+        {"op": "process", "obj": 0, "target": "prev", "mat": _H},
+        {"op": "setparam", "pid": "0", "k": 4},
+        {"op": "process", "obj": 0, "target": "prevV", "mat": _H},
+        {"op": "process", "obj": 0, "target": "mat", "mat": _H}]},
+    # linear inversion: object constructed on the empty circuit, one gate at a time (real -> complex)
+    {"stream": "hist", "n": 1, "params": {}, "steps": [
+        {"op": "new", "obj": 0, "cls": "li", "exp": _exp(1), "args": None},
+        {"op": "process", "obj": 0},
+        {"op": "extend", "gates": [["H", 0]], "how": "each"},
+        {"op": "process", "obj": 0},
+        {"op": "extend", "gates": [["S", 0]], "how": "sub"},
+        {"op": "process", "obj": 0},
+        {"op": "extend", "gates": [["T", 0]], "how": "group"},
+        {"op": "process", "obj": 0},
+        {"op": "process", "obj": 0}]},
+    # maximum likelihood: grow, then change a reflectivity Parameter
+    {"stream": "hist", "n": 1, "params": {"0": {"kind": "refl", "v": 0.5}}, "steps": [
+        {"op": "extend", "gates": [["SX", 0]], "how": "each"},
+        {"op": "new", "obj": 0, "cls": "mle", "exp": _exp(1), "args": None},
+        {"op": "process", "obj": 0},
+        {"op": "extend", "gates": [["T", 0], ["PBS", 0, "0"]], "how": "each"},
+        {"op": "process", "obj": 0},
+        {"op": "setparam", "pid": "0", "v": 1.0},
+        {"op": "process", "obj": 0}]},
+    # two qubits: product circuit -> entangling circuit; two different targets in a row
+    {"stream": "hist", "n": 2, "params": {}, "steps": [
+        {"op": "extend", "gates": [["H", 0]], "how": "each"},
+        {"op": "new", "obj": 0, "cls": "gf", "exp": _exp(1), "args": None},
+        {"op": "process", "obj": 0, "target": "V", "mat": _CNOT},
+        {"op": "extend", "gates": [["CNOT", 0, 1, {"impl": "ps"}], ["S", 1]], "how": "group"},
+        {"op": "process", "obj": 0, "target": "V", "mat": _CNOT},
+        {"op": "process", "obj": 0, "target": "firstV", "mat": _CNOT},
+        {"op": "process", "obj": 0, "target": "mat", "mat": _CNOT}]},
+    # two qubits: a heralded gate is appended (ancilla modes appear) between two calls
+    {"stream": "hist", "n": 2, "params": {}, "steps": [
+        {"op": "extend", "gates": [["H", 0], ["SX", 1]], "how": "each"},
+        {"op": "new", "obj": 0, "cls": "gf", "exp": _exp(1, kind="lambda"), "args": None},
+        {"op": "process", "obj": 0, "target": "V", "mat": _CNOT},
+        {"op": "extend", "gates": [["CZ", 0, 1, {"impl": "her"}]], "how": "each"},
+        {"op": "process", "obj": 0, "target": "V", "mat": _CNOT}]},
+    # two qubits, linear inversion and GateFidelity share the circuit; a sub-circuit is appended
+    {"stream": "hist", "n": 2, "params": {}, "steps": [
+        {"op": "new", "obj": 0, "cls": "li", "exp": _exp(1), "args": None},
+        {"op": "new", "obj": 1, "cls": "gf", "exp": _exp(2, kind="method"), "args": None},
+        {"op": "extend", "gates": [["SX", 0], ["H", 1]], "how": "each"},
+        {"op": "process", "obj": 0},
+        {"op": "process", "obj": 1, "target": "V", "mat": _CNOT},
+        {"op": "extend", "gates": [["CZ", 0, 1, {"impl": "ps"}], ["T", 0]], "how": "sub"},
+        {"op": "process", "obj": 0},
+        {"op": "process", "obj": 1, "target": "prevV", "mat": _CNOT}]},
+    # the device changes, not the circuit: noise through experiment_args, then a new experiment, then back
+    {"stream": "hist", "n": 1, "params": {}, "steps": [
+        {"op": "extend", "gates": [["H", 0], ["T", 0]], "how": "sub"},
+        {"op": "new", "obj": 0, "cls": "gf", "exp": _exp(1), "args": None},
+        {"op": "process", "obj": 0, "target": "mat", "mat": _SH},
+        {"op": "setargs", "obj": 0, "args": ["1/2"]},
+        {"op": "process", "obj": 0, "target": "prev", "mat": _SH},
+        {"op": "setexp", "obj": 0, "exp": _exp(2, "1/4", "method")},
+        {"op": "process", "obj": 0, "target": "V", "mat": _SH},
+        {"op": "setargs", "obj": 0, "args": None},
+        {"op": "process", "obj": 0, "target": "V", "mat": _SH},
+        {"op": "setexp", "obj": 0, "exp": _exp(3, "0", "lambda")},
+        {"op": "process", "obj": 0, "target": "V", "mat": _SH}]},
+    # the same for linear inversion and maximum likelihood
+    {"stream": "hist", "n": 1, "params": {}, "steps": [
+        {"op": "extend", "gates": [["SX", 0], ["S", 0]], "how": "each"},
+        {"op": "new", "obj": 0, "cls": "li", "exp": _exp(1, "1/4"), "args": None},
+        {"op": "new", "obj": 1, "cls": "mle", "exp": _exp(2, "0"), "args": None},
+        {"op": "process", "obj": 0},
+        {"op": "process", "obj": 1},
+        {"op": "setexp", "obj": 0, "exp": _exp(3, "0", "method")},
+        {"op": "setargs", "obj": 1, "args": ["1/2"]},
+        {"op": "process", "obj": 0},
+        {"op": "process", "obj": 1},
+        {"op": "setargs", "obj": 0, "args": ["1"]},
+        {"op": "setargs", "obj": 1, "args": []},
+        {"op": "process", "obj": 0},
+        {"op": "process", "obj": 1}]},
+    # three objects: two GateFidelity (one on its own copy of the circuit) and one LI; the shared circuit grows
+    {"stream": "hist", "n": 1, "params": {"0": {"kind": "phase", "k": 1}}, "steps": [
+        {"op": "extend", "gates": [["H", 0], ["PPS", 0, 0, "0"]], "how": "each"},
+        {"op": "new", "obj": 0, "cls": "gf", "exp": _exp(1), "args": None},
+        {"op": "new", "obj": 1, "cls": "li", "exp": _exp(2), "args": None},
+        {"op": "new", "obj": 2, "cls": "gf", "exp": _exp(3), "args": None, "own": True},
+        {"op": "process", "obj": 0, "target": "V", "mat": _X},
+        {"op": "process", "obj": 1},
+        {"op": "process", "obj": 2, "target": "V", "mat": _X},
+        {"op": "extend", "gates": [["Y", 0], ["SX", 0]], "how": "each", "on": "main"},
+        {"op": "process", "obj": 2, "target": "V", "mat": _X},
+        {"op": "process", "obj": 0, "target": "V", "mat": _X},
+        {"op": "process", "obj": 1},
+        {"op": "setparam", "pid": "0", "k": 6},
+        {"op": "extend", "gates": [["T", 0]], "how": "each", "on": 2},
+        {"op": "process", "obj": 2, "target": "prevV", "mat": _X},
+        {"op": "process", "obj": 0, "target": "mat", "mat": _X},
+        {"op": "process", "obj": 1}]},
+]
+
+
+def shrink_hist(ctx: Ctx, case: dict, first: str) -> dict:
+    def still(steps):
+        try:
+            return any(first in p for p in run_hist(ctx, dict(case, steps=steps)))
+        except Exception:  # noqa: BLE001  (a history that is no longer well formed)
+            return False
+
+    steps = ddmin(case["steps"], still, max_tests=40) if len(case["steps"]) > 1 else case["steps"]
+    for k, st in enumerate(steps):
+        if st["op"] == "extend" and len(st["gates"]) > 1:
+            def still_g(gates, k=k, st=st):
+                return still([*steps[:k], dict(st, gates=gates), *steps[k + 1:]])
+
+            steps = [*steps[:k], dict(st, gates=ddmin(st["gates"], still_g, max_tests=12)), *steps[k + 1:]]
+    return dict(case, steps=steps)
+
+
 # --------------------------------------------------------------------------- driver of the check
 
 
 def run_case(ctx: Ctx, case: dict) -> list[str]:
-    return {"proc": run_proc, "data": run_data, "ref": run_ref, "init": run_init}[case["stream"]](ctx, case)
+    return {"proc": run_proc, "data": run_data, "ref": run_ref, "init": run_init,
+            "hist": run_hist}[case["stream"]](ctx, case)
 
 
 def report(ctx: Ctx, case: dict, probs: list[str]) -> None:
@@ -443,8 +1104,14 @@ def report(ctx: Ctx, case: dict, probs: list[str]) -> None:
 
         small = dict(case, prog=ddmin(case["prog"], still, max_tests=40))
         probs = run_case(ctx, small) or probs
+    elif case["stream"] == "hist" and len(ctx.violations) < ctx.max_reports:  # (later ones are only counted)
+        lead = [p for p in probs if p.startswith("oracle")] or probs
+        small = shrink_hist(ctx, case, lead[0].split(":")[1].strip()[:25])
+        probs = run_case(ctx, small) or probs
     oracle = [p for p in probs if p.startswith("oracle")]
-    if oracle:
+    if oracle and case["stream"] == "hist":
+        ctx.violation(oracle[0], {"case": small, "problems": probs}, sig={"kind": "history", "stream": "hist"})
+    elif oracle:
         kind = "mle" if "MLE" in oracle[0] else "choi-ref" if "choi" in oracle[0] else oracle[0].split(":")[1].strip()[:40]
         ctx.violation(oracle[0], {"case": small, "problems": probs}, sig={"kind": kind, "stream": case["stream"]})
     else:
@@ -457,13 +1124,49 @@ def run(ctx: Ctx) -> None:
                 "through LI, GateFidelity (target = V and a random exact target) and MLE (fixed share); non-trivial = "
                 "V is not symmetric or not real (the cases on which row/column stacking and the transpose matter); "
                 "distinct = distinct (n, program). data stream: synthetic callback data, ~60% malformed; ref stream: "
-                "choi_from_unitary on the model's exact V; init stream: constructor validation")
+                "choi_from_unitary on the model's exact V; init stream: constructor validation; hist stream: long-lived "
+                "LI / MLE / GateFidelity objects through process - extend the base circuit in place / set a Parameter / "
+                "re-assign experiment or experiment_args - process again (several targets), one to three objects sharing "
+                "the circuit or holding a copy, n = 1, 2 (MLE n = 1); non-trivial = V or the device changed between two "
+                "calls on one object; distinct = distinct history")
     rng = ctx.rng
     n_proc = ctx.n(32, 300)
     n_data = ctx.n(40, 500)
     n_ref = ctx.n(40, 400)
     n_init = ctx.n(30, 300)
     mle_model_budget = ctx.n(1, 10)
+    n_hist = ctx.n(22, 300)
+    _HIST_BUDGET["n2_model"] = ctx.n(8, 120)
+
+    def one_hist(case, directed):
+        probs, info = run_hist(ctx, case, want_info=True)
+        ctx.count("hist:directed" if directed else f"hist:n={case['n']}")
+        ctx.count("hist:objects=" + str(sum(1 for st in case["steps"] if st["op"] == "new")))
+        for c in sorted(info["cls"]):
+            ctx.count("hist:has-" + c)
+        for op in sorted(info["ops"]):
+            ctx.count("hist:has-" + op)
+        if any(st["op"] == "new" and st.get("own") for st in case["steps"]):
+            ctx.count("hist:has-object-on-its-own-copy-of-the-circuit")
+        ctx.count("hist:process-calls", info["processes"])
+        for k in ("v_changed", "noise_changed", "modes_changed"):
+            if info[k]:
+                ctx.count(f"hist:{k}-between-calls", info[k])
+        ctx.case(json.dumps(case, sort_keys=True), bool(info["v_changed"] or info["noise_changed"]),
+                 sample=case if directed and case is HIST_CORPUS[0] else None)
+        if probs:
+            saved = _HIST_BUDGET["n2_model"]
+            _HIST_BUDGET["n2_model"] = None
+            try:
+                report(ctx, case, probs)
+            finally:
+                _HIST_BUDGET["n2_model"] = saved
+
+    # directed histories first (the nastiest shapes), then the older streams, then random histories
+    for case in HIST_CORPUS:
+        if ctx.out_of_time():
+            break
+        one_hist(case, True)
     for i in range(n_proc):
         if ctx.out_of_time():
             break
@@ -508,6 +1211,11 @@ def run(ctx: Ctx) -> None:
         ctx.case(json.dumps(case, default=str)[:2000], False)
         if probs:
             report(ctx, case, probs)
+    hrng = random.Random(f"C16-hist-{ctx.seed}")  # own stream: the older streams keep their cases per seed
+    for _ in range(n_hist):
+        if ctx.out_of_time():
+            break
+        one_hist(gen_hist_case(ctx, hrng), False)
     for _ in range(n_init):
         if ctx.out_of_time():
             break
@@ -525,6 +1233,7 @@ def run(ctx: Ctx) -> None:
 def replay(ctx: Ctx, path: str) -> None:
     data = json.load(open(path))
     case = data["replay"]["case"]
+    _HIST_BUDGET["n2_model"] = None
     probs = run_case(ctx, case)
     ctx.case("replay", True, sample=case)
     for p in probs:
